@@ -26,6 +26,13 @@ CLAIMED = {
         note=TB + "pest/vic parser not modelled: vic side rests on tree comparison and output equality (partial).",
         technique="Coq proof (parser model = denotation, spelling/position invariance) + model-vs-binary correspondence",
         design="§9 C18"),
+    "C14": dict(
+        text="Theorems: for every text, the JSON string literal written by the model of serde_json's escaping decodes (RFC 8259) to exactly that text and stops at its closing quote; field keys after -n are 1..k or the given names, values in order; "
+             "no -c => the buffer verbatim; template literals are copied, closed placeholders replaced by the field, unknown ones are an error; duplicate names refuted (known finding). "
+             "Correspondence: the real format_output_json/_standard/_template called in-process on random records with hostile contents vs the model; whole CLI pipeline: stdout = model format_output(dumped records)+newline; json.loads / join / numbering oracles.",
+        note=TB + "The JSON document structure (array/object layout) is validated by json.loads on the real output, not proved; serde_json itself is re-modelled, not verified.",
+        technique="Coq proof (escape/unescape round trip by induction, numbering invariant, template scanner lemmas) + model-vs-binary correspondence",
+        design="§9 C14"),
 }
 
 NOT_YET = {}
